@@ -1,5 +1,6 @@
 import Model
 import Proofs.SchedInv
+import Proofs.Fuel
 /-!
 C11 — scheduling is total.
 
@@ -67,5 +68,30 @@ theorem outside_horizon_is_runaway (e : Env) (σ : St) (t : Nat) (hnd : (σ.tst 
 /-- an already scheduled task is left alone -/
 theorem scheduled_is_skipped (e : Env) (σ : St) (t : Nat) (h : (σ.tst t).done = true) : scheduleTask e σ t = (σ, true) := by
   unfold scheduleTask; simp [h]
+
+/-! ### the fuel of the model's loops is never what stops them -/
+
+/-- **the slot walk**: the code's `while self.scheduleSlot()` loop has no fuel; it ends when the task is finished or the
+    cursor leaves the horizon.  The model's walk behaves the same for ANY fuel above the number of slots between the cursor
+    and the edge of the horizon: more fuel never changes the result -/
+theorem walk_fuel_irrelevant (e : Env) (t : Nat) (fwd : Bool) (fuel k : Nat) (σ : St) (w : Walk)
+    (h : slotsLeft e fwd w < fuel) : walkLoop e t fwd (fuel + k) σ w = walkLoop e t fwd fuel σ w :=
+  walkLoop_fuel_irrelevant e t fwd fuel k σ w h
+
+/-- … and `scheduleTask` starts the walk (only from a cursor inside the horizon) with more fuel than that -/
+theorem walk_fuel_ample (e : Env) (fwd : Bool) (w : Walk) (hs : e.upper ≤ e.size + 1)
+    (hin : ¬ (w.cur < 0 ∨ w.cur > e.upper)) : slotsLeft e fwd w < e.size.toNat + 3 :=
+  scheduleTask_fuel_ample e fwd w hs hin
+
+/-- the hypothesis holds for every elaborated project: the scoreboard covers the horizon -/
+theorem horizon_covered (p : RawProj) (hG : 0 < p.G) : (elaborate p).env.upper ≤ (elaborate p).env.size + 1 :=
+  elaborate_horizon p hG
+
+/-- the two searches for a working slot (`while cur > lower and not …: cur -= 1`, and the forward one) likewise -/
+theorem back_search_fuel (e : Env) (p : Int → Bool) (fuel : Nat) (c0 : Int) (h : c0.toNat < fuel) :
+    backToWork e p fuel c0 = backToWork e p (fuel + 1) c0 := backToWork_fuel_enough e p fuel c0 h
+
+theorem fwd_search_fuel (e : Env) (fuel : Nat) (c0 : Int) (h : (e.upper - c0).toNat < fuel) :
+    fwdToWork e fuel c0 = fwdToWork e (fuel + 1) c0 := fwdToWork_fuel_enough e fuel c0 h
 
 end SP.C11
